@@ -64,6 +64,14 @@ def dueBlockNote (sd : SideSt) (t : Int) : String :=
   | (dur, replace) :: _ => s!" (a BlockOutgoing with {durClass dur} duration {dur}us replace={replace} is due at this instant and its BlockingBegin has not been reported yet)"
   | [] => ""
 
+/-- diagnostic only: a BlockOutgoing that is still pending (due after `t`) -/
+def pendingBlockNote (sd : SideSt) (t : Int) : String :=
+  match sd.slots.filterMap (fun x => match x with
+      | some (.blockOutgoing _ _ bypass replace _, due) => if due > t then some (due, bypass, replace) else none
+      | _ => none) with
+  | (due, bypass, replace) :: _ => s!"; a BlockOutgoing (bypass={bypass} replace={replace}) is pending but only due at {due}"
+  | [] => ""
+
 /-- blocking that should have ended before time `t` -/
 def overdue (sd : SideSt) (t : Int) : Option Blk :=
   match sd.blk with
@@ -94,7 +102,7 @@ def stepEv (st : MonSt) (x : EvActs) : Except String MonSt := do
       match sd.blk with
       | some b =>
         if (e.bypass && b.allBypass) || t ≥ b.expiry then pure sd
-        else throw s!"TunnelSent left the blocked {sideName e.client} at {t} (packet bypass={e.bypass} padding={e.containsPadding}, every blocking action allowed bypass={b.allBypass}, expiry {b.expiry})"
+        else throw s!"TunnelSent left the blocked {sideName e.client} at {t} (packet bypass={e.bypass} padding={e.containsPadding}, every blocking action allowed bypass={b.allBypass}, expiry {b.expiry}{pendingBlockNote sd t})"
       | none => pure sd
     | .paddingSent m => pure { sd with slots := sd.slots.set m none }
     | _ => pure sd
